@@ -461,6 +461,18 @@ theorem C02_env_obs_in_declared_space (e : EpisodeCfg) : ∀ (sts : List SimStat
         (fun st' hst' => h st' (by simp [hst'])) a ha
       rwa [C02_env_space_within_episode] at this
 
+/-- what `buildV` adds to `build`: the constructors' threshold validation passed on every constructed component -/
+theorem buildV_some (thr : ThrCfg) (r : RawObs) (o : Obs) (h : r.buildV thr = some o) :
+    r.build thr = some o ∧ r.ctorThrValid thr = true := by
+  unfold RawObs.buildV at h
+  cases hr : r.build thr with
+  | none => simp [hr] at h
+  | some o' =>
+    simp only [hr] at h
+    split at h
+    · next hv => injection h with h; subst h; exact ⟨rfl, hv⟩
+    · exact absurd h (by simp)
+
 /-- **C02 at environment level, from the episode's configuration alone** (full since F-6 and F-C02-2 are repaired): whatever an
 ACCEPTED configuration says (`EpisodeCfg.build` = observation schemas, constructors and the flatten guard of `ProxyAgent`), nested or
 flattened, every observation handed out during the episode is a member of the space declared during that episode.  The only
@@ -468,10 +480,11 @@ hypotheses left: dictionary keys of the scenario are distinct (`Wf`, true of YAM
 theorem C02_env_episode_in_declared_space (e : EpisodeCfg) (o : Obs) (hw : e.raw.Wf) (hb : e.build = some o)
     (sts : List SimState) (h : ∀ st ∈ sts, WfState st) : ∀ a ∈ e.run o sts, (e.space o).has a = true := by
   unfold EpisodeCfg.build at hb
-  cases hr : e.raw.build e.thr with
-  | none => simp [hr] at hb
+  cases hv : e.raw.buildV e.thr with
+  | none => simp [hv] at hb
   | some o' =>
-    simp only [hr] at hb
+    have hr := (buildV_some e.thr e.raw o' hv).1
+    simp only [hv] at hb
     split at hb
     · next hacc =>
       injection hb with hb
